@@ -33,6 +33,11 @@ def parts_mismatch(d, e, scale):
             x = float(exp[j])
             if not (abs(v - x) <= 1e-9 * max(abs(v), abs(x), 1e-3 * scale)):
                 bad.append((("height[%d]" % j) if j < 5 else ("desired[%d]" % (j - 10)), v, x))
+    for j in range(15, min(len(exp), len(w), 20)):      # increments of the desired positions, when the recipe states them
+        v = rpl.w2f(w[j])
+        x = float(exp[j])
+        if not (abs(v - x) <= 1e-9 * max(abs(v), abs(x), 1e-3)):
+            bad.append(("increment[%d]" % (j - 15), v, x))
     return bad
 
 
@@ -157,15 +162,23 @@ def finish(W, prop):
     return out
 
 
-def run_set(prop, tier, probe, body):
+def run_set(prop, tier, probe, body, budget_s=None):
+    """budget_s: wall-clock cap for the whole engine-M plan (never reached on the pinned tree, where every plan but the P-square one
+    takes under a minute). A change that makes a function fork without bound must end as 'inconclusive', not as a hung check."""
     t0 = time.time()
+    budget_s = budget_s or (600.0 if tier == "quick" else 3600.0)
     try:
         W = World(probe=probe, tier=tier)
     except Exception as e:
         return [{"obligation": "M:mir-dump", "engine": "mirsym", "verdict": "inconclusive", "reason": "MIR dump/parse failed: %r" % (e,)}], {}
     errors = []
+    W.m.deadline = t0 + budget_s
 
     def T(f, *a, **k):
+        if time.time() > W.m.deadline:
+            errors.append({"obligation": "M:%s%r" % (f.__name__, a[1:] if len(a) > 1 else a), "engine": "mirsym", "verdict": "inconclusive",
+                           "reason": "skipped: engine-M plan budget of %.0f s used up" % budget_s, "role": prop})
+            return
         try:
             f(W, *a, **k)
         except Unsupported as e:
@@ -274,7 +287,7 @@ def plan_c05(tier, seed):
         T(qu.check_quantile_reads_middle, "C05")
         T(qu.check_p2_step, "C05")
         T(qu.check_reference_invariants, "C05")
-    return run_set("C05", tier, False, body)
+    return run_set("C05", tier, False, body, budget_s=3000.0 if tier == "quick" else 7200.0)
 
 
 def plan_c17(tier, seed):
@@ -309,7 +322,7 @@ def plan_c15(tier, seed):
         T(qu.check_quantile_reads_middle, "C15")
         T(qu.check_p2_step, "C15")
         T(qu.check_reference_invariants, "C15")
-    return run_set("C15", tier, False, body)
+    return run_set("C15", tier, False, body, budget_s=3000.0 if tier == "quick" else 7200.0)
 
 
 def plan_c13(tier, seed):
